@@ -1,10 +1,14 @@
 package main
 
 import (
+	"crypto/rsa"
+	"strings"
+
 	"crypto/x509"
 	"encoding/base64"
 	"encoding/json"
 	"fmt"
+	"github.com/notaryproject/notation-core-go/signature"
 
 	"github.com/notaryproject/notation-core-go/signature/cose"
 	"github.com/notaryproject/notation-core-go/signature/jws"
@@ -113,10 +117,10 @@ func genC01(tier string, rng *RNG, w *CaseWriter) {
 		}
 		// (i) splices: components of two valid envelopes in every combination
 		A := buildEnv(fi, "ec256b", 2, `{"subject":"A"}`, "notary.x509")
-		B := buildEnv(fi, "ec256c", 2, `{"subject":"B"}`, "notary.x509")      // same key type, other key
-		C := buildEnv(fi, "ec256b", 2, `{"subject":"C"}`, "notary.x509")      // same key, other payload
-		D := buildEnv(fi, "ec256b", 3, `{"subject":"A"}`, "notary.x509")      // same key and content, other chain (re-issued leaf)
-		E := buildEnv(fi, "rsa2048a", 2, `{"subject":"E"}`, "notary.x509")    // other key type
+		B := buildEnv(fi, "ec256c", 2, `{"subject":"B"}`, "notary.x509")   // same key type, other key
+		C := buildEnv(fi, "ec256b", 2, `{"subject":"C"}`, "notary.x509")   // same key, other payload
+		D := buildEnv(fi, "ec256b", 3, `{"subject":"A"}`, "notary.x509")   // same key and content, other chain (re-issued leaf)
+		E := buildEnv(fi, "rsa2048a", 2, `{"subject":"E"}`, "notary.x509") // other key type
 		for _, pair := range [][2]*builtEnv{{A, B}, {A, C}, {A, D}, {A, E}, {B, A}, {E, A}} {
 			for m := 0; m < 16; m++ {
 				b, mt := splice(pair[0], pair[1], m&1 != 0, m&2 != 0, m&4 != 0, m&8 != 0)
@@ -150,6 +154,67 @@ func genC01(tier string, rng *RNG, w *CaseWriter) {
 					emitEnvelope(w, e.mt, b, []string{"unsigned-extra-headers"}, 2)
 				}
 			}
+		}
+		// (ii-b) unsigned members of the wrong kind, and signed-looking members placed among the unsigned ones
+		for _, d := range deviations() {
+			if !strings.HasPrefix(d.name, "unsigned-") && !strings.Contains(d.name, "-unsigned") {
+				continue
+			}
+			for _, e := range envs[:2] {
+				p := *e.plan
+				p.jMut, p.cMut, p.Labels = nil, nil, nil
+				if !applyDev(&p, d) {
+					continue
+				}
+				if b, mt, err := p.encode(); err == nil {
+					emitEnvelope(w, mt, b, []string{d.name}, 0)
+				}
+			}
+		}
+		// (ii-c) an object with a history: a valid envelope is parsed and verified, then the same object signs a new
+		// request through an external signer whose signature was made with ANOTHER key (it returns the victim's
+		// chain), then it is verified again.  The bytes the second Sign returned are the case's envelope; the
+		// implementation outputs are those of the object itself.
+		for _, e := range envs[:2] {
+			e := e
+			env, err := signature.ParseEnvelope(e.mt, e.bytes)
+			if err != nil {
+				continue
+			}
+			_, v1 := env.Verify()
+			liar := remoteCfg{&cfgSigner{ks: trueKeySpec(e.plan.SignWith), chain: e.chain, signKey: Key("ec256c"), signAlg: "ES256"}}
+			if _, isRSA := e.plan.SignWith.Public().(*rsa.PublicKey); isRSA {
+				liar.signKey, liar.signAlg = Key("rsa2048b"), "PS256"
+			}
+			req := &signature.SignRequest{Payload: signature.Payload{ContentType: payloadCT, Content: []byte(`{"forged":true}`)}, Signer: liar,
+				SigningTime: baseTime, SigningScheme: signature.SigningSchemeX509}
+			b2, serr := env.Sign(req)
+			if v1 != nil || serr != nil || len(b2) == 0 {
+				w.Count("history-scenario-skipped")
+				continue
+			}
+			emitEnvelopeOut(w, e.mt, b2, []string{"history:verify,sign-with-lying-signer,verify"}, 0, "%s", func() (out implEnvOut) {
+				out.Verify, out.Content = "None", "None"
+				defer func() {
+					if r := recover(); r != nil {
+						out.Panicked, out.PanicMsg = true, fmt.Sprint(r)
+					}
+				}()
+				out.ParseOK = true
+				if c, err := env.Verify(); err == nil && c != nil {
+					t, _ := contentTerm(c)
+					out.Verify = "(Some " + t + ")"
+				} else {
+					out.VerifyErr = errClass(err)
+				}
+				if c, err := env.Content(); err == nil && c != nil {
+					t, _ := contentTerm(c)
+					out.Content = "(Some " + t + ")"
+				} else {
+					out.ContErr = errClass(err)
+				}
+				return
+			})
 		}
 		// (iii) leaf substitution by look-alikes: same subject and issuer, other key
 		{
